@@ -340,8 +340,12 @@ Inductive recipe :=
      (* x = ref path (a Pow): x itself if a, b are the very objects x.get_base(), x.get_exp(); else pow(a, b) *)
 | RKeepOrCreate (path : list nat) (a : recipe)
      (* x = ref path (a OneArgFunction): x itself if eq(a, x.get_arg()); else x.create(a) *)
+| RKeepOrCreate2 (path : list nat) (a b : recipe)
+     (* x = ref path (a TwoArgBasic): x itself if a, b are the very objects x.get_arg1(), x.get_arg2(); else x.create(a, b) *)
 | RCreate (path : list nat) (l : list recipe)
      (* x = ref path (OneArg/TwoArg/MultiArgFunction): x.create(l) *)
+| RDatnMul (c : number) (l : list (recipe * recipe))
+     (* coef = c; for (exp, t) in l: Mul::dict_add_term_new(outArg(coef), d, exp, t); Mul::from_dict(coef, d) *)
 | RRawConj (a : recipe).                 (* make_rcp<const Conjugate>(a) *)
 
 Definition r_int (z : Z) : recipe := RNum (NInt z).
@@ -431,6 +435,11 @@ Fixpoint rewrite_f (k : rwkind) (fuel : nat) (path : list nat) (e : expr) : res 
             | None => Ok (RKeepOrCreate path na)
             end
           else Ok (RRef path)
+      | EF2 _ a b =>
+          (* template bvisit(const TwoArgBasic<T> &): functions and relationals *)
+          do na <- rewrite_f k f (path ++ [0%nat]) a;
+          do nb <- rewrite_f k f (path ++ [1%nat]) b;
+          Ok (RKeepOrCreate2 path na nb)
       | EFN code l =>
           if is_multi_arg_function code then do l' <- kids l; Ok (RCreate path l')
           else Ok (RRef path)
@@ -523,9 +532,12 @@ Fixpoint conjugate_r (path : list nat) (e : expr) {struct e} : res recipe :=
   | EMul c d =>
       let off := if num_is_one c then 0%nat else 1%nat in
       match num_conjugate c with
-      | None => ErrExn EXN_INTERNAL
+      | None =>
+          (* coefficient zoo: conjugate(zoo) is a Conjugate object, rcp_static_cast<const Number> of it is
+             undefined behaviour; observed as SIGSEGV *)
+          ErrExn EXN_SIGSEGV
       | Some c' =>
-          do l <- (fix go (i : nat) (d : mdict) {struct d} : res (list recipe) :=
+          do l <- (fix go (i : nat) (d : mdict) {struct d} : res (list (recipe * recipe)) :=
                      match d with
                      | [] => Ok []
                      | (k, v) :: r =>
@@ -533,14 +545,15 @@ Fixpoint conjugate_r (path : list nat) (e : expr) {struct e} : res recipe :=
                          do t <- (if is_Integer v then
                                     (* dict_add_term_new(coef, new_dict, p.second, conjugate(p.first)) *)
                                     do ck <- conjugate_r (if unit then path ++ [i] else path ++ [i; 0%nat]) k;
-                                    Ok (if unit then ck else RPow ck (RRef (path ++ [i; 1%nat])))
+                                    Ok (if unit then r_int 1 else RRef (path ++ [i; 1%nat]), ck)
                                   else
-                                    (* conjugate(Mul::from_dict(one, {{k, v}})) = conjugate(Pow(k, v)), v not an Integer *)
-                                    Ok (RRawConj (RRef (path ++ [i]))));
+                                    (* dict_add_term_new(coef, new_dict, one, conjugate(Mul::from_dict(one, {{k, v}})));
+                                       from_dict gives Pow(k, v), v not an Integer: a raw Conjugate *)
+                                    Ok (r_int 1, RRawConj (RRef (path ++ [i]))));
                          do ts <- go (S i) r;
                          Ok (t :: ts)
                      end) off d;
-          Ok (RMulV (RNum c' :: l))
+          Ok (RDatnMul c' l)
       end
   | EPow b x =>
       if is_Integer x then
